@@ -327,6 +327,21 @@ def shard_random(shard, nshards, tier, seed, scratch):
     stats = Stats()
     fails = run_hypothesis(st_long(), lambda c: check_long(c, stats), max(1, total // nshards), seed, shrink_budget=300 if tier == 'quick' else 2000)
     seen = set()
+    # long CRLF-terminated lines with a read ending exactly between the CR and the LF (the look-ahead for the LF with a long line buffered)
+    if shard == 0:
+        for L in (40, 255, 256, 257, 300, 683, 1023, 1024, 2047, 5000):
+            text = ''.join('%d,' % i + 'x' * (L - 2 - len(str(i))) + '\r\n' for i in range(6)) + 'last,row'
+            exp = expected(text, ',', 'quoted', None, False, None)
+            for cs in (L + 1, 2 * (L + 2) - 1, 1024, 3 * (L + 2) - 1, L + 2):
+                for policy in ('quoted', 'quoted_rfc', 'simple'):
+                    got = observe(PiecewiseText([text]), None, ',', policy, None, False, cs)
+                    stats.evaluations += 1
+                    stats.nontrivial_counted += 1
+                    if got != exp and 'crlf-long-line' not in seen:
+                        seen.add('crlf-long-line')
+                        fails.append({'clause': 'long-line-crlf-at-read-boundary', 'detail': {'line_length': L, 'chunk_size': cs, 'policy': policy, 'n_records': (len(got[0]) if got[0] is not None else None, len(exp[0])), 'warnings': got[2], 'error': got[3]},
+                                      'case': {'kind': 'crlf-long', 'L': L, 'cs': cs, 'policy': policy}})
+        stats.bump('long-crlf-lines')
     for i, (name, text, dlm, policy) in enumerate(big_texts(tier)):
         if i % nshards != shard:
             continue
@@ -344,6 +359,14 @@ def shard_random(shard, nshards, tier, seed, scratch):
 
 def replay(case, clause=None):
     kind = case.get('kind')
+    if kind == 'crlf-long':
+        L = case['L']
+        text = ''.join('%d,' % i + 'x' * (L - 2 - len(str(i))) + '\r\n' for i in range(6)) + 'last,row'
+        exp = expected(text, ',', 'quoted', None, False, None)
+        got = observe(PiecewiseText([text]), None, ',', case['policy'], None, False, case['cs'])
+        if got != exp:
+            raise Violation('long-line-crlf-at-read-boundary', {'line_length': L, 'chunk_size': case['cs']})
+        return
     if kind == 'big':
         import tempfile, shutil
         d = tempfile.mkdtemp(prefix='vf_c12_')
